@@ -1260,7 +1260,7 @@ Proof.
   { destruct HG2 as ((_ & (_ & Hh & _) & _) & _). exact Hh. }
   pose proof (init_pos exec prov g k C HV) as Hi.
   assert (Hmj : (m <= j2)%nat).
-  { apply (progress_end exec g C nd2 j2 m HG2 Hrun Hm).
+  { apply (progress_end exec prov g k C HV nd2 j2 m HG2 Hrun Hm).
     intros i sh d Hlt Hn.
     assert (Hhv : hv_h g (n_cache nd2) j2 i sh /\ (d_txs d = [] -> hv_d g (n_cache nd2) j2 i d)).
     { destruct (Hhd i (sh, d) Hlt Hn) as [Hap|Hdl].
@@ -1372,7 +1372,7 @@ Proof.
   assert (Hlive : forall e da, In (IEv (e da)) h2 -> delivered_live exec 0 g (map lift h1) (map lift h2) e).
   { intros e da Hin. apply In_nth_error in Hin as (p & Hp). exists p, da, None.
     split; [rewrite nth_error_map, Hp; reflexivity|]. split; [discriminate|].
-    rewrite <- firstn_map, <- map_app, frun_lift. apply Hrun.
+    rewrite firstn_map, <- map_app, frun_lift. apply Hrun.
     apply Forall_app in Hall as (A1 & A2). apply Forall_app. split; [exact A1|apply Forall_firstn; exact A2]. }
   pose proof (Hrun _ Hall) as Hr.
   pose proof HV as HV0. apply ChainValid_P0 in HV0.
@@ -1449,3 +1449,20 @@ Qed.
 (* the witness violates exactly the guard of complete_partial *)
 Lemma complete_refuted_guard : distinct_commitmentsb f2_chain = false.
 Proof. vm_compute. reflexivity. Qed.
+
+(* ---- chains signed over the payload of provider p, histories with read faults ------------------------ *)
+Fixpoint ex_build_p (p : N) (prev : option header) (n : N) (r : root) (l : list (list tx * Z)) : list block :=
+  match l with
+  | [] => []
+  | (txs, t) :: l' =>
+      let h := {| h_height := n; h_time := t; h_chain := 1; h_last := prev; h_data := txs; h_app := r;
+                  h_proposer := Addr 1 |} in
+      ({| sh_hdr := h; sh_sig := Sig 1 (payload p h); sh_signer := {| sg_pub := Some (Pub 1); sg_addr := Addr 1 |} |},
+       {| d_meta := Some {| m_chain := 1; m_height := n; m_time := t |}; d_txs := txs |})
+      :: ex_build_p p (Some h) (n + 1) (ex_exec r n t txs) l'
+  end.
+Definition ex_chain_p (p initial : N) (l : list (list tx * Z)) : list block := ex_build_p p None initial 5 l.
+Definition fevh (C : list block) (i : nat) (da : N) (flt : option nat) : fitem :=
+  FEv (EvHeader (fst (nth i C (genesis_block (ex_g 1)))) da) flt.
+Definition fevd (C : list block) (i : nat) (da : N) (flt : option nat) : fitem :=
+  FEv (EvData (snd (nth i C (genesis_block (ex_g 1)))) da) flt.
